@@ -124,6 +124,11 @@ func (o *Out) obs(m map[string]any) {
 	o.Obs.Write(b)
 	o.Obs.WriteByte('\n')
 	o.Events++
+	if m["ev"] == "reset" {
+		// what is on disk always names the run in progress: if a library goroutine takes the process down, the
+		// checker knows which run it was (lib/walengine.py run_jobs)
+		o.Obs.Flush()
+	}
 }
 
 type stepInfo struct {
